@@ -574,6 +574,8 @@ namespace
         char*                                    first_addr = nullptr;
         bool                                     shrink = false;
         bool                                     dirty  = false; // the block cache was purged while this scope was open
+        bool                                     first_grew = false;   // the first allocation needed a new block
+        bool                                     failed_before_first = false;
         unsigned char                            tag = 0;
     };
 
@@ -781,7 +783,8 @@ namespace
                            // the stack on to a fresh block, so the address replay of the open scopes
                            // would have to repeat it: skip the replay for them
                            for (auto& o : A.scopes)
-                               o.dirty = true;
+                               if (!o.first_addr)
+                                   o.failed_before_first = true;
                            return;
                        }
                        if (!p || reinterpret_cast<uintptr_t>(p) % align)
@@ -797,6 +800,7 @@ namespace
                            sc.first_size  = size;
                            sc.first_align = align;
                            sc.first_addr  = p;
+                           sc.first_grew  = sc.alloc->get_stack().next_capacity() != before;
                        }
                        sc.allocs.emplace_back(p, size);
                    });
@@ -865,7 +869,9 @@ namespace
                             return;
                         }
             // address replay: the first request of the closed scope lands on the same address again
-            if (sc.first_addr && !shr && !sc.dirty)
+            // (valid unless the first request needed a fresh block and the block cache has been
+            // purged since, or a refused request preceded it)
+            if (sc.first_addr && !sc.failed_before_first && (!sc.first_grew || (!shr && !sc.dirty)))
             {
                 fm::temporary_allocator probe(*stack);
                 char* p = static_cast<char*>(probe.allocate(sc.first_size, sc.first_align));
